@@ -127,7 +127,8 @@ class PendingTransport(object):
         self.connected = 0
         self.disconnecting = 0
         self.disconnected = 0
-        self.sock = FakeSocket(connector.reactor.world.cfg.get("sockopt_errno"))
+        one_off = connector.reactor.world.take_sockfail()
+        self.sock = FakeSocket(connector.reactor.world.cfg.get("sockopt_errno") or one_off)
 
     def getHandle(self):
         return self.sock
@@ -199,7 +200,9 @@ class SimConnector(object):
         self.factory = factory
         self.timeout = timeout
         self.bindAddress = bindAddress
-        self.local_host = "10.0.0.1"
+        # not bound to an address: the kernel picks the source address, per connection (cfg local_hosts)
+        hosts = reactor.world.cfg.get("local_hosts") or ["10.0.0.1"]
+        self.local_host = hosts[cid % len(hosts)]
         if bindAddress and bindAddress[0] not in (None, "", "0.0.0.0"):
             self.local_host = bindAddress[0]
         self.state = "disconnected"
